@@ -9,6 +9,9 @@
 (*   v3 title starting with "b", in a block quote, ATX                     *)
 (*   v5 title containing "x", top level, ATX with closing hashes           *)
 (*   v6 title starting with "b", in a list item, setext (levels 1-2)       *)
+(*   v7 the same plain title whatever the position, top level, ATX (two    *)
+(*      headings of one document may carry the same text at different      *)
+(*      levels: whether a heading qualifies is decided per heading)        *)
 (* The specification writes the Markdown source itself.                    *)
 (*                                                                         *)
 (* Property tier: Entries(cfg) = the qualifying headings in document order *)
@@ -31,6 +34,7 @@ vars == <<levels, variants, phase>>
 Variants == VariantSet      \* subset of 1..6
 Word(i) == <<"one", "two", "three", "four", "five", "six">>[i]
 Title(i, v) == CASE v \in {1, 4} -> Word(i) \o " plain"
+                 [] v = 7 -> "same title"
                  [] v \in {2, 5} -> "ex" \o Word(i) \o " box"
                  [] v \in {3, 6} -> "b" \o Word(i) \o " word"
 HasX(v)    == v \in {2, 5}
